@@ -72,6 +72,7 @@ fn main() {
 								Some("conv") => navv::replay_conv(&mut rep, &rec),
 								Some("fragiter") => navv::replay_fragiter(&mut rep, &rec),
 								Some("wide") => printv::replay_wide(&mut rep, &rec),
+								Some("deepprint") => printv::replay_deepprint(&mut rep, &rec),
 								Some("print") => printv::replay_print(&mut rep, &rec),
 								Some("macro") => macros.push(rec.clone()),
 								Some("de") => dev::replay_de(&mut rep, &rec),
